@@ -731,3 +731,37 @@ def seq_concat(t):
     [*a, x, *b] both give [('splice', a), ('item', x), ('splice', b)]."""
     return [("splice", x[1]) if k == "item" and x[0] == "star" else (k, x)
             for k, x in concat_parts(t)]
+
+
+def merge_fstr(t):
+    """f-strings with adjacent constant pieces merged (f"*.{'x'}." ->
+    '*.x.'), so literal file-name patterns can be read off"""
+    def f(x):
+        if x[0] == "fstr":
+            out = []
+            for y in x[1]:
+                if out and y[0] == "const" and out[-1][0] == "const" and \
+                        isinstance(y[1], str) and isinstance(out[-1][1],
+                                                             str):
+                    out[-1] = ("const", out[-1][1] + y[1])
+                else:
+                    out.append(y)
+            return ("fstr", tuple(out))
+        return x
+    return map_term(t, f)
+
+
+def expand_const_comp(t):
+    """[f(k) for k in ("a", "b")]  ->  [f("a"), f("b")]"""
+    def f(x):
+        if x[0] == "comp" and x[1] in ("list", "tuple") and \
+                len(x[3]) == 1 and not x[3][0][2]:
+            it = x[3][0][1]
+            if it[0] in ("tuple", "list") and it[1] and all(
+                    y[0] == "const" for y in it[1]):
+                el = ("elem", it)
+                return ("list", tuple(
+                    map_term(x[2], lambda z, c=c: c if z == el else z)
+                    for c in it[1]))
+        return x
+    return merge_fstr(map_term(t, f))
